@@ -362,10 +362,38 @@ Definition list_plugins (root_exists : bool) (es : list (string * ekind)) : list
   if root_exists then map fst (filter (fun e => is_kdir (snd e)) es) else [].
 
 (* ---------- verifier: the signature-supplied name ---------- *)
+(* strings.TrimSpace(s) == "": every rune of s is white space (unicode.IsSpace):
+   the ASCII ones, and in UTF-8 U+0085, U+00A0 (C2 85, C2 A0), U+1680 (E1 9A 80),
+   U+2000..U+200A, U+2028, U+2029, U+202F (E2 80 80..8A, A8, A9, AF),
+   U+205F (E2 81 9F), U+3000 (E3 80 80); a byte that starts no such encoding is
+   a rune (or an encoding error) that is not white space *)
 Definition is_space (a : ascii) : bool :=
   let n := N_of_ascii a in ((9 <=? n) && (n <=? 13) || (n =? 32))%N.
+Definition is_space2 (a b : ascii) : bool :=
+  let x := N_of_ascii a in let y := N_of_ascii b in
+  ((x =? 194) && ((y =? 133) || (y =? 160)))%N.
+Definition is_space3 (a b c : ascii) : bool :=
+  let x := N_of_ascii a in let y := N_of_ascii b in let z := N_of_ascii c in
+  (((x =? 225) && (y =? 154) && (z =? 128))
+   || ((x =? 226) && (y =? 128)
+       && (((128 <=? z) && (z <=? 138)) || (z =? 168) || (z =? 169) || (z =? 175)))
+   || ((x =? 226) && (y =? 129) && (z =? 159))
+   || ((x =? 227) && (y =? 128) && (z =? 128)))%N.
 Fixpoint all_space (s : string) : bool :=
-  match s with EmptyString => true | String a s' => is_space a && all_space s' end.
+  match s with
+  | EmptyString => true
+  | String a s1 =>
+      if is_space a then all_space s1
+      else match s1 with
+           | String b s2 =>
+               if is_space2 a b then all_space s2
+               else match s2 with
+                    | String c s3 => if is_space3 a b c then all_space s3 else false
+                    | EmptyString => false
+                    end
+           | EmptyString => false
+           end
+  end.
 
 (* calls made on the plugin manager *)
 Inductive mcall := CGet (name : string).
@@ -381,12 +409,45 @@ Definition verify_lookup (w : fs) (root name : string) : outcome :=
   | _ => let r := get_meta w root name in mk_out (r_err r) MNone (r_fs r) (r_log r) []
   end.
 
+(* the same fragment with everything it consults before the manager is called:
+   the attribute as extractCriticalStringExtendedAttribute classifies it, whether
+   getVerificationPluginMinVersion fails on a present attribute, whether the
+   verifier has a plugin manager. Whether the signing certificate is trusted is
+   NOT consulted (authenticity is evaluated later). *)
+Inductive vattr :=
+| VAbsent                         (* errExtendedAttributeNotExist: no plugin *)
+| VNotCritical (s : string)       (* present, not marked critical *)
+| VNotString                      (* present, critical, value not a string *)
+| VStr (s : string).              (* present, critical, a string *)
+
+Definition verify_plan (a : vattr) (minv_bad has_pm : bool) : err * list mcall :=
+  match a with
+  | VAbsent => (ENone, [])
+  | VNotCritical _ => (EOther, [])
+  | VNotString => (EOther, [])
+  | VStr s =>
+      if all_space s then (EEmpty, [])
+      else if minv_bad then (EOther, [])
+      else if negb has_pm then (EOther, [])
+      else (ENone, [CGet s])
+  end.
+
+Definition verify_x (w : fs) (root : string) (a : vattr) (minv_bad has_pm : bool) : outcome :=
+  match verify_plan a minv_bad has_pm with
+  | (_, CGet s :: _) =>
+      let r := get_meta w root s in mk_out (r_err r) MNone (r_fs r) (r_log r) []
+  | (e, []) => mk_out e MNone w [] []
+  end.
+
 (* ---------- operations, inputs, observations ---------- *)
 Inductive op :=
 | OGet (name : string)
 | OUninstall (name : string)
 | OVerify (name : string)
 | OVerifyAbsent                      (* a signature without the verificationPlugin attribute *)
+| OVerifyX (a : vattr) (minv_bad has_pm trusted : bool)
+    (* end-to-end verification with the attribute in any shape; trusted = the
+       signing certificate chains to the policy's trust store *)
 | OInstall (src : string) (overwrite : bool)
 | OList (root_exists : bool) (entries : list (string * ekind))
 | OPath (name : string).
@@ -408,6 +469,7 @@ Definition exec_op (i : input) : outcome :=
       let '(e, w', l) := uninstall w root name in mk_out e MNone w' l []
   | OVerify name => verify_lookup w root name
   | OVerifyAbsent => mk_out ENone MNone w [] []       (* no plugin: the manager is not called *)
+  | OVerifyX a mb pm _ => verify_x w root a mb pm
   | OInstall src ow => install w root src ow
   | OList ex es => mk_out ENone MNone w [] (list_plugins ex es)
   | OPath name =>
@@ -571,6 +633,15 @@ Definition spec_ok (i : input) (o : obs) : bool :=
   | OUninstall name => name_ok i o false true name
   | OVerify name => name_ok i o true false name
   | OVerifyAbsent => no_effects o && err_eqb (o_err o) ENone
+  | OVerifyX a mb pm _ =>
+      match a with
+      | VStr s =>
+          if mb || negb pm
+          then no_effects o && negb (err_eqb (o_err o) ENone)
+          else name_ok i o true false s
+      | VAbsent => no_effects o && err_eqb (o_err o) ENone
+      | _ => no_effects o && negb (err_eqb (o_err o) ENone)
+      end
   | OInstall src _ => install_ok i o src
   | OList ex es =>
       no_effects o
